@@ -206,7 +206,7 @@ func (mT *provider) subscriptionRecurseSearch(root *node, levels []string, publi
 			mT.nodeSubscribers(n.(*node), publishID, p)
 		}
 	} else {
-		if n, ok := root.children.Load(topicsTypes.MWC); ok && len(levels[0]) != 0 {
+		if n, ok := root.children.Load(topicsTypes.MWC); ok && (root.parent != nil || len(levels[0]) != 0) {
 			mT.nodeSubscribers(n.(*node), publishID, p)
 		}
 
